@@ -51,10 +51,12 @@ type Net struct {
 
 	mu       sync.Mutex
 	dials    []string
+	deliv    map[string]Delivery
 	log      []Packet
 	seen     map[string]int
 	wg       sync.WaitGroup
 	scriptMu sync.Mutex
+	tag      string
 }
 
 // Log returns a copy of the packets received so far.
@@ -75,6 +77,37 @@ func (n *Net) Swap(w *World, ghosts map[string]*World) {
 		n.Ghost[a] = g
 	}
 	n.mu.Unlock()
+}
+
+// Delivery says when an authority last sent a record and with what TTL.
+type Delivery struct {
+	At    time.Duration // since Epoch
+	TTL   uint32
+	Count int
+	Tags  map[string]bool // caller-defined labels that were current at the time (Net.Tag)
+}
+
+// Tag is attached to every delivery recorded from now on (e.g. which client question is being resolved).
+func (n *Net) SetTag(tag string) {
+	n.mu.Lock()
+	n.tag = tag
+	n.mu.Unlock()
+}
+
+// Delivered looks a record up (owner lower-cased, TTL ignored).
+func (n *Net) Delivered(rr dns.RR) (Delivery, bool) {
+	n.mu.Lock()
+	defer n.mu.Unlock()
+	d, ok := n.deliv[normRR(rr)]
+	return d, ok
+}
+
+func normRR(rr dns.RR) string {
+	c := dns.Copy(rr)
+	c.Header().Name = strings.ToLower(c.Header().Name)
+	c.Header().Ttl = 0
+	c.Header().Rdlength = 0
+	return strings.ToLower(c.String())
 }
 
 // Dials returns every "proto/host" sdns tried to connect to.
@@ -324,6 +357,29 @@ func (n *Net) handle(c *memConn, raw []byte) {
 			return
 		}
 		out = append(out, b)
+	}
+	if !act.NoReply {
+		n.mu.Lock()
+		if n.deliv == nil {
+			n.deliv = map[string]Delivery{}
+		}
+		now := time.Since(Epoch)
+		for _, sec := range [][]dns.RR{resp.Answer, resp.Ns, resp.Extra} {
+			for _, rr := range sec {
+				if rr.Header().Rrtype == dns.TypeOPT {
+					continue
+				}
+				k := normRR(rr)
+				d := n.deliv[k]
+				d.At, d.TTL, d.Count = now, rr.Header().Ttl, d.Count+1
+				if d.Tags == nil {
+					d.Tags = map[string]bool{}
+				}
+				d.Tags[n.tag] = true
+				n.deliv[k] = d
+			}
+		}
+		n.mu.Unlock()
 	}
 	delay := n.Latency + act.Delay
 	n.wg.Add(1)
